@@ -901,6 +901,7 @@ class WorkerMonitor(object):
         self.pairs    = 0
         self.fails    = 0              # consecutive failed _alloc attempts
         self.attempts = 0
+        self.success  = 0
         self.blocked  = None
         self.abort    = False
         self.sentinel = -1
@@ -921,6 +922,7 @@ class WorkerMonitor(object):
                     self.blocked = task['uid']
                     return ok
                 self.fails, self.blocked = 0, None
+                self.success += 1
                 self._on_alloc(task)
             return ok
 
@@ -956,6 +958,10 @@ class WorkerMonitor(object):
 
         w._alloc, w._dealloc, w._result_cb = alloc, dealloc, result_cb
         w._res_put.put = put
+
+    def snapshot(self):
+        with self.lock:
+            return (self.blocked, self.success, self.attempts)
 
     def _on_alloc(self, task):
         uid   = task['uid']
@@ -1179,20 +1185,30 @@ def run_stream(rig, case, res, watchdog=None):
 
     t0      = time.time()
     status  = None
-    settled = None          # attempts counter when everything had drained
+    limit   = watchdog or WATCHDOG
+    probe   = None     # (blocked uid, successes, attempts) when all had drained
     while True:
         rig.pump_results()
         if not rig.w._result_thread.is_alive():
             status = 'watcher-died'
             break
+
+        # NOTE: the order of the reads matters.  `done` first: if the driver
+        # had ended, the list of request processes is complete.
+        done  = state['done']
+        snap  = mon.snapshot()
         alive = rig.procs_alive()
-        if state['done'] and not alive:
+
+        if done and not alive:
             status = 'quiescent'
             break
-        if not state['done'] and not alive and mon.blocked:
-            # nothing runs, the driver waits for resources: make sure every
-            # written result was processed, then give _alloc three more tries
-            if settled is None:
+
+        if not done and snap[0] and not alive:
+            # The driver waited for resources (as of `snap`) and no request
+            # process exists now.  If no _alloc succeeded since `snap`, no
+            # process was started since, so every result is in the pipe: have
+            # them processed, then give the same request three more attempts.
+            if probe is None:
                 fl = rig.flush_watcher()
                 if fl is None:
                     status = 'watchdog'
@@ -1200,14 +1216,20 @@ def run_stream(rig, case, res, watchdog=None):
                 if fl is False:
                     status = 'watcher-died'
                     break
-                if not rig.procs_alive() and mon.blocked:
-                    settled = mon.attempts
-            elif mon.blocked and mon.attempts >= settled + 3:
-                status = 'stuck'
-                break
+                now = mon.snapshot()
+                if now[:2] == snap[:2] and not rig.procs_alive():
+                    probe = now
+            else:
+                now = mon.snapshot()
+                if now[:2] != probe[:2]:
+                    probe = None
+                elif now[2] >= probe[2] + 3:
+                    status = 'stuck'
+                    break
         else:
-            settled = None
-        if time.time() - t0 > (watchdog or WATCHDOG):
+            probe = None
+
+        if time.time() - t0 > limit:
             status = 'watchdog'
             break
         time.sleep(0.003)
